@@ -165,6 +165,48 @@ func encScenario(rt ring.Type, logN int, ch rk.Chain, np, bound int) engine.Scen
 	}}
 }
 
+// compressedScenario: the seed-compressed (degree-0) form of a secret-key encryption, judged the way its
+// consumer uses it: the encryptor draws c1 from a PRNG the caller supplied (WithPRNG, or
+// NewTestEncryptorWithPRNG), only c0 is kept, and the receiver re-derives c1 from the same key with an
+// independent uniform sampler at the ciphertext's level and in the ciphertext's own domain (runEnc does
+// that for degree 0) before the ordinary phase / noise / decryption oracles. Full product over every
+// level × parameter NTTFlag × target IsNTT × PRNG provenance × entry point × plaintext-level relation,
+// for every ring type, chain shape and #P (the deviation-bounded enc/* group reaches degree 0 outside the
+// NTT domain only at three deviations).
+func compressedScenario(rt ring.Type, logN int, ch rk.Chain, np int) engine.Scenario {
+	ch = withP(ch, np)
+	name := fmt.Sprintf("compressed/%s/logN%d/%s/P%d", ringName(rt), logN, ch.Name, np)
+	return engine.Scenario{Name: name, Bound: -1, Fn: func(c *engine.Chooser) {
+		n := 1 << logN
+		ntt := c.ChooseFree(2, "NTTFlag") == 0
+		var cf encCfg
+		cf.params = rk.Params(ch.Lit(logN, maxLogN, rt, ntt, xsAlphabet(n)[0], xeAlphabet()[0]))
+		L := cf.params.MaxLevel()
+		cf.level = L - c.ChooseFree(L+1, "level")
+		cf.ctLevel, cf.ptLevel = cf.level, cf.level
+		cf.isNTT = c.ChooseFree(2, "IsNTT") == 0
+		cf.prov = []int{provWithPRNG, provTestPRNG}[c.ChooseFree(2, "prov")]
+		cf.entry = []int{entEncrypt, entEncryptZero}[c.ChooseFree(2, "entry")]
+		cf.degree = 0
+		cf.pat = 1
+		if cf.entry == entEncrypt {
+			cf.pat = 0
+			if cf.level < L && c.ChooseFree(2, "levels") == 1 {
+				cf.ptLevel = L // plaintext above the compressed receiver
+			}
+		}
+		cf.dec = c.ChooseFree(2, "dec")
+		c.Cover("compressed-IsNTT", fmt.Sprint(cf.isNTT))
+		c.Cover("compressed-NTTFlag", fmt.Sprint(ntt))
+		if cf.level < L {
+			c.Cover("compressed-level", "below-max")
+		} else {
+			c.Cover("compressed-level", "max")
+		}
+		runEnc(c, name, cf)
+	}}
+}
+
 // knownEncScenario: representative leaves of every input class on which the unchanged tree violates
 // the property (FINDINGS.md). Same oracle (runEnc), one stable signature per class.
 func knownEncScenario(rt ring.Type, logN int, ch rk.Chain, np int) engine.Scenario {
